@@ -165,6 +165,12 @@ fn check(p: &Prog, flags: ConsensusFlags, buckets: &mut BTreeMap<String, u64>) -
             return Ok(false);
         }
     };
+    // recorded stress-test generators (millions of conditions, megabyte reveals) are out of the
+    // thorough tier's budget; the cut is on the deterministic consensus cost, not on wall time
+    if p.name.starts_with("corpus/") && full.cost > 2_000_000_000 {
+        *buckets.entry("corpus-generator-above-cost-budget-skipped".into()).or_insert(0) += 1;
+        return Ok(false);
+    }
     let refs: Vec<&[u8]> = p.refs.iter().map(Vec::as_slice).collect();
     // 1. additions_and_removals
     let (adds, rems) = additions_and_removals(&p.bytes, refs.iter().copied(), flags, constants).map_err(|e| ("additions_and_removals/rejects".to_string(), format!("{e:?}")))?;
@@ -210,8 +216,22 @@ fn check(p: &Prog, flags: ConsensusFlags, buckets: &mut BTreeMap<String, u64>) -
             return Err(("get_coinspends_with_conditions/create-coin".into(), format!("spend {i}: reported CREATE_COIN args {got:?}, validated {want:?}")));
         }
     }
+    if css.iter().any(|c| c.puzzle_reveal.as_ref() == [0x80] || c.solution.as_ref() == [0x80]) && p.name.starts_with("corpus/") {
+        // get_coinspends_for_trusted_block substitutes nil for reveals whose plain serialisation
+        // exceeds 2 MB (documented there); nothing to rebuild from
+        *buckets.entry("corpus-generator-with-dropped-reveal".into()).or_insert(0) += 1;
+        return Ok(true);
+    }
     let rebuilt = solution_generator(css.iter().map(|c| (c.coin, c.puzzle_reveal.as_ref(), c.solution.as_ref()))).map_err(|e| ("rebuild/error".to_string(), format!("{e:?}")))?;
-    let re = run_gen2(&rebuilt, &[], MAX_BLOCK, flags, &sig, constants).map_err(|e| ("rebuild/rejected".to_string(), format!("generator rebuilt from the recovered coin spends is rejected: {e:?}")))?;
+    let re = match run_gen2(&rebuilt, &[], MAX_BLOCK, flags, &sig, constants) {
+        Ok(r) => r,
+        // the uncompressed rebuild of a compressed / procedural corpus block may exceed cost or heap
+        Err(e) if p.name.starts_with("corpus/") && matches!(e, chia_consensus::validation_error::ValidationErr::Err(chia_consensus::validation_error::ErrorCode::CostExceeded) | chia_consensus::validation_error::ValidationErr::Eval(clvmr::error::EvalErr::OutOfMemory | clvmr::error::EvalErr::TooManyPairs | clvmr::error::EvalErr::TooManyAtoms)) => {
+            *buckets.entry("corpus-rebuild-exceeds-resources".into()).or_insert(0) += 1;
+            return Ok(true);
+        }
+        Err(e) => return Err(("rebuild/rejected".to_string(), format!("generator rebuilt from the recovered coin spends is rejected: {e:?}"))),
+    };
     let mut s1 = full.summary.clone();
     let mut s2 = re.summary.clone();
     s1.spends.sort();
@@ -278,8 +298,14 @@ fn run(rep: &Report) {
     let env = drive::env();
     let thorough = rep.tier == mc::Tier::Thorough;
     let progs = programs(&env, thorough);
-    rep.set_rule("generators: CREATE_COIN with 11 memo shapes x all 23 length-class boundary amounts on a 2^64-1 coin; every ordered pair of interaction letters on one spend (quick: pairs involving a CREATE_COIN letter); 23 spent-coin amounts; every interaction letter alone and in a two-spend block with hinted outputs; a 7-condition spend mixing hinted / unhinted / unknown-opcode conditions; an ephemeral chain; spend-level extra field; output extension; two procedural generators (one reading a block reference); each plainly serialised and back-reference compressed; flags {none, COST_CONDITIONS, MEMPOOL_MODE}. Only generators accepted by run_block_generator2 are compared. distinct = distinct generator byte strings");
+    rep.set_rule("generators: CREATE_COIN with 11 memo shapes x all 23 length-class boundary amounts on a 2^64-1 coin; every ordered pair of interaction letters on one spend (quick: pairs involving a CREATE_COIN letter); 23 spent-coin amounts; every interaction letter alone and in a two-spend block with hinted outputs; a 7-condition spend mixing hinted / unhinted / unknown-opcode conditions; an ephemeral chain; spend-level extra field; output extension; two procedural generators (one reading a block reference); each plainly serialised and back-reference compressed; flags {none, COST_CONDITIONS, MEMPOOL_MODE}. thorough adds the recorded generators of /repo/generator-tests below 400 kB. Only generators accepted by run_block_generator2 are compared. distinct = distinct generator byte strings");
     rep.assume("additions compared as sorted multisets of (parent id, puzzle hash, amount, hint); hint absent and hint = nil are the same observation on the validated side");
+    let mut progs = progs;
+    if thorough {
+        for (name, bytes, refs) in mc::corpus::generator_tests(400_000) {
+            progs.push(Prog { name: format!("corpus/{name}"), bytes, refs, spends: None });
+        }
+    }
     rep.extra("programs", json!(progs.len()));
     let flagsets = [("none", ConsensusFlags::DONT_VALIDATE_SIGNATURE), ("C", ConsensusFlags::DONT_VALIDATE_SIGNATURE | ConsensusFlags::COST_CONDITIONS), ("M", ConsensusFlags::DONT_VALIDATE_SIGNATURE | chia_consensus::flags::MEMPOOL_MODE)];
     progs.par_chunks(8).for_each(|chunk| {
